@@ -8,11 +8,12 @@ PID = "C09"
 LEAN_MODULE = "NiVerif.Props.C09"
 NAMESPACE = "Props.C09"
 DRIVER = "drivers/Wfm.lean"
-GEN_MODULES = []
-EXTRA_LEAN_MODULES = ["NiVerif.Model.WfmProto"]
+GEN_MODULES = ["AppendTiming"]
+EXTRA_LEAN_MODULES = ["NiVerif.Model.WfmProto", "NiVerif.Props.C10"]
 THEOREMS = ["checkTimingCount_ok", "ctorNew_inv9", "ctorArr_inv9", "setTiming_inv9", "setCount_inv9", "setCapacity_inv9",
             "writeView_inv9", "appendTimestamps_spec", "appendArray_inv9", "foldTiming_spec", "appendWaveforms_inv9",
-            "loadData_inv9", "inv9_step", "inv9_reachable", "get_all_timestamps_ok", "pickle_inv9"]
+            "loadData_inv9", "inv9_step", "inv9_reachable", "get_all_timestamps_ok", "pickle_inv9",
+            "Props.C10.gen_append_timing_eq_model", "Props.C10.gen_append_timestamps_eq_model"]
 RULE = ("seeded histories on AnalogWaveform / ComplexWaveform / DigitalWaveform biased towards irregular timing: "
         "construction with a timing argument, timing assignment, append of arrays with timestamps (every relation of the "
         "timestamp count to the array length, ascending/descending/non-monotonic), append of waveforms and sequences of "
